@@ -172,6 +172,15 @@ CLAIMED = {
         "design_ref": "DESIGN.md §8 C16",
         "technique": "Lean 4 theorems over a hand model of the scanner (regex semantics modelled) + T0 keyword/pattern obligations + T1 correspondence (strip, multi, classify, sqlite3 handler) + real SQLite engine state diff (T2)",
     },
+    "C17": {
+        "text": "Proof (Lean 4), command-line half, for every token list: against an independently written CPython argv grammar (pythonRuns: options end at the first non-option word; -c, -m and a lone dash end them; option values are skipped) an approved `python ...` "
+        "only prints help/version, runs -m calendar, or runs a script whose file - resolved in the command's cwd - passed the file analysis (runs_analysed_file, via spec_holds relating the handler's two scans to the grammar by induction); whatever follows the script word cannot change "
+        "the verdict (program_args_inert); a program read from stdin or given inline is never approved; the only three ways to an approval (approval_needs). T0: flag tables, suffix and size gates, module tables disjoint. NOT modelled: the AST checker and CPython's run-time "
+        "behaviour - 'a script that passes the checker raises no dangerous audit event' is exercised by executing every approved generated script (60 access paths x wrappers x option placements) in a child interpreter whose PEP 578 audit hook records and vetoes file, process, "
+        "network, ctypes, exec/compile and unlisted-import events. Library-internal compile events (dataclasses, namedtuple): finding F17d.",
+        "design_ref": "DESIGN.md §8 C17",
+        "technique": "Lean 4 theorems over a model of the handler's option scans vs a CPython argv-grammar spec + T0 tables + T1 correspondence (classify with recorded file analysis; grammar vs the real interpreter) + audit-hook execution of approved scripts (T2)",
+    },
 }
 
 PENDING_REASON = "check not built yet in this round (DESIGN.md §10 build order); no technique other than Lean proof + correspondence is substituted"
